@@ -161,6 +161,7 @@ pub fn spaces(tier: Tier) -> Vec<Space<'static>> {
         }));
         sp.push(Space::new("depth sweep: every depth 1..=300 x 3 shapes", 300, |i, acc| crate::checks::scale::depth_ops(i as usize + 1, acc, 4)));
     }
+    sp.push(Space::new("entry length field with its top bit set (payloads of more than 2^27 bytes)", crate::checks::scale::N_HUGE, |i, acc| crate::checks::scale::serde_doc(&crate::checks::scale::huge_doc(i), acc)));
     let sd = crate::checks::scale::docs().clone();
     sp.push(Space::new("scale (counts/lengths/offsets across 2^8, 2^16, 2^20)", sd.len() as u64, move |i, acc| crate::checks::scale::serde_doc(&sd[i as usize], acc)));
     if tier.thorough() {
